@@ -6,29 +6,33 @@ import vlib
 PID = "C07"
 UFF_SHAPES = {}
 MANIFEST = {
-    "technique": "Lean 4 theorems over a hand model of FuncFrame::init/finalize and x86/AArch64 emit_prolog/emit_epilog executed on an "
-                 "abstract stack machine (all frames, all entry stacks, all confined bodies; induction over push/pop and save-slot lists) "
-                 "+ C++/Lean correspondence + Lean monitor run on the real prolog/epilog",
-    "text": "Lean proves (Props/C07.lean, 11 theorems, no sorry, axioms propext/Classical.choice/Quot.sound): finalize_layout - for every frame "
-            "handed to finalize (power-of-two alignments, no 32-bit wrap) call area, local area, extra-register save area, DA slot, push/pop "
-            "area and return address are ordered, disjoint and aligned as reported; x86_prolog_body_epilog - for every x86-32/x86-64 frame of "
-            "every built-in convention (x86In_init, x86_wf_of_finalize), every entry state the convention allows and EVERY body confined to the "
-            "declared areas, prolog;body;epilog on the stack machine returns to the caller's return address with sp = entry + W + callee "
-            "cleanup and every callee-saved GP/vector/mask/mm register restored, the body sees the promised sp alignment and stack arguments "
-            "at the reported offsets (FP / no FP / dynamic alignment with DA slot or FP / SA register / SSE-AVX save modes / callee-pops); "
-            "a64_prolog_body_epilog_partial - the same on AArch64 (stp/ldp pairs, pre/post index, FP/LR, 8- and 16-byte vector saves) for "
-            "frames without dynamic alignment or SA register, which is the open finding proved false at its witness (a64_dynalign_witness). "
-            "The model is tied to the real FuncFrame and emit_prolog/emit_epilog (Builder node lists) by running both on the same seeded "
-            "frames; the Lean monitor (same predicates as the theorems) executes the *implementation's* prolog/epilog around the most hostile "
-            "admissible body (junkBody_ok) at every entry-stack residue mod 128 and judges every frame.",
+    "technique": "Lean 4 theorems over a hand model of FuncFrame::init/setters/finalize, FuncArgsAssignment::update_func_frame (frame effect), "
+                 "x86/AArch64 emit_prolog/emit_epilog executed on an abstract stack machine, and RAStackAllocator/update_stack_frame "
+                 "(all frames reachable through the public API, all entry stacks, all confined bodies; induction over API-call sequences, "
+                 "push/pop lists, save-slot lists, stack-slot lists) + C++/Lean correspondence + Lean monitors run on the real output",
+    "text": "Lean proves (Props/C07.lean, C07Api.lean, C07RA.lean; no sorry; axioms propext/Classical.choice/Quot.sound): finalize_layout - for "
+            "every frame handed to finalize the reported areas are ordered, disjoint, aligned; x86_prolog_body_epilog(_api) - for every x86-32/"
+            "x86-64 frame reachable through the public API (any built-in convention, optionally with user-set preserved masks, init, then ANY "
+            "sequence of set_/update_ size and alignment calls, attribute changes incl. a stale kAlignedVecSR, dirty-mask changes, SA register, "
+            "update_func_frame; argument validity = power-of-two alignments <= 64, sizes <= 256 MiB, real GP register), every entry state and "
+            "EVERY confined body: prolog;body;epilog returns to the caller's return address with the required sp and every callee-saved "
+            "GP/vector/mask/mm register restored, promised alignment and stack-argument offsets inside the body; "
+            "a64_prolog_body_epilog(_api)_partial - the same on AArch64 incl. x29 as SA register with a preserved frame pointer, excluding "
+            "exactly the open finding (dynamic alignment / other SA registers; proved false at its witness); ra_slots_layout + ra_handover - "
+            "for every list of stack slots in every order the allocator's slots are aligned, pairwise disjoint, inside [0, stack_size), and after "
+            "update_stack_frame inside the finalized frame's local area. Tie: the real CallConv/FuncFrame/update_func_frame/emit_prolog/"
+            "emit_epilog/RAStackAllocator run on the same seeded lines as the model (frames, API-call sequences, a sweep over every CallConvId x "
+            "architecture x platform, slot lists); the Lean monitors (same predicates as the theorems) execute the implementation's "
+            "prolog/epilog around the most hostile admissible body at every entry-stack residue mod 128 and judge every frame and slot layout.",
     "note": "Trusted: Lean kernel; Spec/StackMachine.lean + Spec/FrameSpec.lean as the meaning of the instructions and of the property; the "
-            "harness/driver diff. Modelled: CallConv members read by FuncFrame::init, FuncFrame::init/setters/finalize, x86 and a64 "
-            "emit_prolog/emit_epilog. Not modelled: rapass.cpp/rastack.cpp hand-over (covered by C05's validated programs only), encodability of the "
-            "emitted instructions (C01/C02); update_* setters and user overrides of preserved masks are covered by correspondence+monitor only. "
-            "AArch64 dynamic alignment / SA register is an open finding (C07-a64-dynalign). The model follows fixes/C07-1..4.patch; until they are "
-            "applied the check reports those four classes on /repo with concrete replays.",
+            "harness/driver diff. update_func_frame is modelled by its effect on the frame (dirty bits added, SA register selected); the real "
+            "call is executed by the harness and its observed effect is checked against that shape and replayed by the model. The sort of "
+            "calculate_stack_frame is not transcribed (theorems hold for every order; the model places in the implementation's order). "
+            "BaseRAPass::update_stack_frame itself is not driven (composition of tied pieces; C05 validates compiled programs). Not covered: "
+            "instruction encodability (C01/C02). AArch64 dynamic alignment / foreign SA register is an open finding (C07-a64-dynalign). "
+            "The model follows fixes/C07-1..7.patch; until C07-5..7 are applied the check reports those classes on /repo with concrete replays.",
 }
-MODS = ["AsmjitVerif.Props.C07", "AsmjitVerif.Props.C07Api"]
+MODS = ["AsmjitVerif.Props.C07", "AsmjitVerif.Props.C07Api", "AsmjitVerif.Props.C07RA"]
 
 ARCHN = {0: "x86", 1: "x64", 2: "a64"}
 CCS = {0: [0, 1, 2, 3, 4, 5, 6, 7, 16, 17, 18], 1: [0, 1, 2, 3, 4, 5, 6, 7, 16, 17, 18, 32, 33], 2: [0, 1, 3, 7, 16, 17, 18, 32, 33]}
